@@ -1094,7 +1094,7 @@ def run(ctx, tier):
     return dict(
         results=results, stats=dict(ctx.stats),
         explanation=(
-            'Order and exactly-once of iteration are binary-search and index arithmetic and are NOT decided. Decided: (bounds-total) Range::next consults both bounds, the Included and '
+            'Order and exactly-once of iteration are binary-search and index arithmetic and are NOT decided. Decided: (keys-as-bytes) no integer decoding of key bytes on lookup paths; (index-agreement, third clause) positions come out of a binary search. (bounds-total) Range::next consults both bounds, the Included and '
             'Excluded variants each have their own arm that reads the payload and they do not decide with the same comparison, Unbounded is separate; (start-compare) each start arm '
             'compares the current entry\'s key with the bound (seek may rest on either neighbour); (no-underflow) no plain `len - k` without a dominating length test is reachable from '
             'the iterator API; (filter-total) the bucket-only and pair-only filters return None only when the inner iterator is exhausted; (seek-reset) installing a new search stack '
